@@ -41,6 +41,8 @@ def case_from_tlc(obj, h, g):
     inp = obj["input"]
     # ToJson of an empty sequence is [], which is what the harness expects everywhere
     inp["via"] = "cli" if int(h[:6], 16) % 6 == 0 else "api"
+    # every other filtered in-process case first renders the all-inclusive view of the same graph object
+    inp["pre"] = bool(inp.get("filter")) and inp["via"] == "api" and int(h[6:8], 16) % 2 == 0
     return {"case": "tlc-" + h, "input": inp}
 
 
@@ -85,7 +87,8 @@ def fixed_cases(pid, tier, seed):
             for flt in ([], ["a"], ["b.", "B"]):
                 for via in ("api", "cli"):
                     out.append({"case": "fixed-%s-%d%d-%s-%s" % (name, mh, mp, "_".join(flt) or "all", via),
-                                "input": {"types": types, "filter": flt, "mergeH": mh, "mergeP": mp, "via": via}})
+                                "input": {"types": types, "filter": flt, "mergeH": mh, "mergeP": mp, "via": via,
+                                          "pre": bool(flt) and via == "api" and len(name) % 2 == 0}})
     return out
 
 
